@@ -82,6 +82,16 @@ func (it *Interp) concretise(s AbsSlice) (SliceV, bool) {
 		return sv, true
 	}
 	if len(s.Segs) != 1 || s.Segs[0].Bytes != nil || s.Segs[0].Zeros || s.Segs[0].Min != nil {
+		// several segments of constant length: a fresh array with their bytes (a read-only snapshot)
+		if len(s.Segs) >= 1 {
+			if vals, ok := it.segValues(s.Segs); ok && len(vals) > 0 {
+				o := it.NewArrayObject(types.Typ[types.Uint8], len(vals), "bytes", false)
+				for i, c := range o.Root.Kids {
+					c.Val = termValue(vals[i])
+				}
+				return SliceV{Arr: o.Root, Lo: 0, Len: TInt(int64(len(vals))), Cap: len(vals)}, true
+			}
+		}
 		return SliceV{}, false
 	}
 	g := s.Segs[0]
@@ -165,6 +175,9 @@ func (it *Interp) constInt(v Value) (int, bool) {
 }
 
 func (it *Interp) lenTerm(v Value) *Term {
+	if b, ok := v.(BufRef); ok && b.Len != nil {
+		return it.ApplyTerm(b.Len)
+	}
 	switch x := it.rd(v).(type) {
 	case SliceV:
 		return it.ApplyTerm(x.Len)
@@ -482,7 +495,7 @@ func (fr *Frame) indexAddr(x *ssa.IndexAddr) Value {
 			if !okT {
 				it.abortf("index %s into a buffer of symbolic length in %s", show(iv), fr.fn)
 			}
-			return BufElem{C: b.C, Idx: it.ApplyTerm(t), fn: fr.fn, pos: x.Pos()}
+			return BufElem{C: b.C, Idx: it.ApplyTerm(b.bufOff().Add(t)), fn: fr.fn, pos: x.Pos()}
 		}
 	}
 	base = it.rd(base)
@@ -552,6 +565,30 @@ func (fr *Frame) slice(x *ssa.Slice) Value {
 	if b, isBuf := base.(BufRef); isBuf {
 		if x.Low == nil && x.High == nil {
 			return b
+		}
+		if _, conc := it.bufConc(b); !conc && x.Max == nil {
+			// a view of a buffer of symbolic length: writes through it reach the buffer
+			curLen := it.lenTerm(b)
+			lo, hi := TInt(0), curLen
+			ok := curLen != nil
+			if x.Low != nil {
+				t, okT := asTerm(fr.get(x.Low))
+				lo, ok = t, ok && okT
+			}
+			if x.High != nil {
+				t, okT := asTerm(fr.get(x.High))
+				hi, ok = t, ok && okT
+			}
+			if ok {
+				lo, hi = it.ApplyTerm(lo), it.ApplyTerm(hi)
+				l1, _ := lo.Bounds()
+				l2, _ := hi.Sub(lo).Bounds()
+				l3, _ := curLen.Sub(hi).Bounds()
+				if l1.Sign() < 0 || l2.Sign() < 0 || l3.Sign() < 0 {
+					it.event("bounds", fr.fn, x.Pos(), "slice bounds [%s:%s] of a buffer of %s bytes not provably in range (possible run-time panic)", lo, hi, curLen)
+				}
+				return BufRef{C: b.C, Off: b.bufOff().Add(lo), Len: hi.Sub(lo)}
+			}
 		}
 		base = it.rd(b)
 	}
@@ -845,7 +882,11 @@ func (fr *Frame) selectElem(base Value, iv Value) (PtrSel, bool) {
 
 // BufRef is a mutable byte buffer of symbolic length (make([]byte, n) with n not a constant of the path): the cell
 // holds its current content as an AbsSlice. BufElem is the address of one of its bytes.
-type BufRef struct{ C *Cell }
+type BufRef struct {
+	C *Cell
+	// a view buf[Off : Off+Len] of the buffer (nil: the whole buffer)
+	Off, Len *Term
+}
 type BufElem struct {
 	C   *Cell
 	Idx *Term
@@ -856,7 +897,37 @@ type BufElem struct {
 func (it *Interp) newBuf(s AbsSlice, name string) BufRef {
 	o := it.NewObject(types.NewSlice(types.Typ[types.Uint8]), name, false)
 	o.Root.Val = s
-	return BufRef{o.Root}
+	return BufRef{C: o.Root}
+}
+
+// bufOff is the offset of the view in its buffer.
+func (b BufRef) bufOff() *Term {
+	if b.Off == nil {
+		return TInt(0)
+	}
+	return b.Off
+}
+
+// bufWrite overwrites the bytes of the buffer starting at offset off with src (which must fit in what follows).
+func (it *Interp) bufWrite(c *Cell, off *Term, src []Seg, fn *ssa.Function) {
+	cur, ok := c.Val.(AbsSlice)
+	if !ok {
+		it.abortf("write into a buffer of unknown content in %s", fn)
+	}
+	sl := it.ApplyTerm(AbsSlice{Segs: src}.Length())
+	left, rest, ok1 := it.splitSegs(cur.Segs, off)
+	if !ok1 {
+		it.abortf("write at offset %s into the middle of a buffer segment in %s", off, fn)
+	}
+	if lo, _ := it.ApplyTerm(AbsSlice{Segs: rest}.Length()).Sub(sl).Bounds(); lo.Sign() < 0 {
+		it.abortf("write of %s bytes beyond the end of a buffer in %s", sl, fn)
+	}
+	_, right, ok2 := it.splitSegs(rest, sl)
+	if !ok2 {
+		it.abortf("write into the middle of a buffer segment in %s", fn)
+	}
+	ns := append(append(append([]Seg{}, left...), src...), right...)
+	it.setCell(c, AbsSlice{Segs: normSegs(dropEmpty(ns))})
 }
 
 // rd reads a buffer reference as the byte string (or, once its length is fixed, the array slice) it currently is.
@@ -867,34 +938,38 @@ func (it *Interp) rd(v Value) Value {
 			if sv, conc := it.bufConc(b); conc {
 				return sv
 			}
-			return s
+			if b.Off == nil {
+				return s
+			}
+			_, rest, ok1 := it.splitSegs(s.Segs, b.Off)
+			if ok1 {
+				if mid, _, ok2 := it.splitSegs(rest, b.Len); ok2 {
+					return AbsSlice{Segs: mid}
+				}
+			}
+			return Top{Why: "view of a buffer that does not fall on segment boundaries"}
 		case SliceV:
-			return s
+			if sv, conc := it.bufConc(b); conc {
+				return sv
+			}
+			return Top{Why: "view with a symbolic bound of a buffer"}
 		}
 		return Top{Why: "buffer content"}
 	}
 	return v
 }
 
-// bufConc turns a buffer whose length is a constant of the path into an array slice, for good: later reads and
-// writes go to that array.
-func (it *Interp) bufConc(b BufRef) (SliceV, bool) {
-	if sv, ok := b.C.Val.(SliceV); ok {
-		return sv, true
-	}
-	s, ok := b.C.Val.(AbsSlice)
-	if !ok {
-		return SliceV{}, false
-	}
+// segValues lists the bytes of a string all of whose segments have a length that is a constant of the path.
+func (it *Interp) segValues(segs []Seg) ([]*Term, bool) {
 	var vals []*Term
-	for _, g := range s.Segs {
+	for _, g := range segs {
 		if g.Bytes != nil {
 			vals = append(vals, g.Bytes...)
 			continue
 		}
 		k, isC := it.ApplyTerm(g.Len).IsConst()
 		if !isC || !k.IsInt64() || k.Int64() > 4096 {
-			return SliceV{}, false
+			return nil, false
 		}
 		n := int(k.Int64())
 		for i := 0; i < n; i++ {
@@ -903,15 +978,44 @@ func (it *Interp) bufConc(b BufRef) (SliceV, bool) {
 				vals = append(vals, TInt(0))
 			case g.Min != nil:
 				if _, hi := g.Min.Bounds(); hi.BitLen() > 8*n {
-					return SliceV{}, false
+					return nil, false
 				}
 				vals = append(vals, ByteOf(g.Min, n-1-i))
 			case strings.HasPrefix(g.Name, "str:"):
-				return SliceV{}, false
+				return nil, false
 			default:
 				vals = append(vals, SymByte(g.Name+"["+itoa(i)+"]"))
 			}
 		}
+	}
+	return vals, true
+}
+
+// bufConc turns a buffer whose length is a constant of the path into an array slice, for good: later reads and
+// writes go to that array.
+func (it *Interp) bufConc(b BufRef) (SliceV, bool) {
+	if b.Off != nil {
+		whole, ok := it.bufConc(BufRef{C: b.C})
+		if !ok {
+			return SliceV{}, false
+		}
+		o, ok1 := it.ApplyTerm(b.Off).IsConst()
+		l, ok2 := it.ApplyTerm(b.Len).IsConst()
+		if !ok1 || !ok2 {
+			return SliceV{}, false
+		}
+		return SliceV{Arr: whole.Arr, Lo: whole.Lo + int(o.Int64()), Len: TConst(l), Cap: whole.Cap - int(o.Int64())}, true
+	}
+	if sv, ok := b.C.Val.(SliceV); ok {
+		return sv, true
+	}
+	s, ok := b.C.Val.(AbsSlice)
+	if !ok {
+		return SliceV{}, false
+	}
+	vals, okV := it.segValues(s.Segs)
+	if !okV {
+		return SliceV{}, false
 	}
 	o := it.NewArrayObject(types.Typ[types.Uint8], len(vals), b.C.Obj.Name, false)
 	for i, c := range o.Root.Kids {
